@@ -20,12 +20,13 @@ if rc != 0:
     res["error"] = out; print(json.dumps(res)); sys.exit(1)
 files = [l[6:].strip() for l in open(patch) if l.startswith("+++ b/")]
 res["files"] = files
-header = "".join(open(os.path.join(src, "demo_test.go")).readlines()[:25])
-m = re.search(r"cd /tmp/mut/\w+/(v2|execution) && go test ([^\n]*)", header)
+header = "".join(open(os.path.join(src, "demo_test.go")).readlines()[:40])
+header = re.sub(r"\\\n//\s*", " ", header)
+m = re.search(r"cd (?:\S*/)?(v2|execution)/? && go test ([^\n]*)", header)
 assert m, "cannot parse demo header"
 mod = m.group(1)
 pkg = re.search(r"(\./[\w/]+/?)", m.group(2)).group(1).rstrip("/")
-run = re.search(r"-run\s+'?([\w|^$()]+)'?", m.group(2)).group(1)
+run = re.search(r"-run[ =]+['\"]?([\w|^$()<>]+)['\"]?", m.group(2)).group(1)
 res["demo"] = {"module": mod, "package": pkg, "run": run}
 rc1, o1 = sh("go build ./pkg/...", cwd=f"{wt}/v2"); rc2, o2 = sh("go build ./...", cwd=f"{wt}/execution")
 res["compiles"] = rc1 == 0 and rc2 == 0
